@@ -15,6 +15,14 @@ Proof. vm_compute. reflexivity. Qed.
 Fact C04_fact_group_limit : Generated.TrieBits.WID_MAX_GROUP <= 255.
 Proof. vm_compute. discriminate. Qed.
 
+(* the builder indexes exactly the rows with a non-negative left id (should_index is `left_id >= 0`) *)
+Fact C04_fact_should_index : index_rule_ok = true.
+Proof. vm_compute. reflexivity. Qed.
+
+Theorem C04_builder_indexes_nonnegative : forall r : row, builder_indexes (snd r) = indexed r.
+Proof. exact (builder_indexes_spec C04_fact_should_index). Qed.
+Print Assumptions C04_builder_indexes_nonnegative.
+
 (* ---- the reader ---- *)
 (* for ALL arrays, texts and offsets: the iterator yields, shortest first, (value, end) of every accepted key that is a
    prefix of text[off..] -- the list computed by trying the prefixes of length 1, 2, ... in turn *)
@@ -100,3 +108,23 @@ Theorem C04_stamp_parts : forall d raw, d < 16 -> raw <= WORD_MASK ->
   dic_of (stamp d raw) = d /\ word_of (stamp d raw) = raw.
 Proof. intros d raw Hd Hr. split; [exact (dic_of_stamp C04_fact_layout d raw Hd Hr)|exact (word_of_stamp C04_fact_layout d raw Hd Hr)]. Qed.
 Print Assumptions C04_stamp_parts.
+
+(* ---- the certificate closes the loop with the source CSV ---- *)
+(* If the per-dictionary check succeeds (the verified enumerator, run on the bytes yada produced, returns exactly the
+   indexed surfaces of the CSV, and every key's table group lists exactly the rows carrying that surface), then for EVERY
+   byte text and EVERY offset Lexicon::lookup succeeds and returns exactly what the naive scan of the CSV returns:
+   indexed rows whose surface is a prefix of the text at that offset, with end offset, word number and dictionary number *)
+Theorem C04_lookup_exact_of_certificate : forall L rows fuel,
+  cert_lex L rows fuel = true ->
+  forall dic text off, N.land dic Generated.LexFacts.DIC_MASK = dic -> bytes text ->
+  exists l, lex_lookup L dic text off = Some l /\
+            forall w e, In (w, e) l <-> In (w, e) (naive_lex dic rows text off).
+Proof. exact lex_lookup_exact_of_cert. Qed.
+Print Assumptions C04_lookup_exact_of_certificate.
+
+(* exact-surface lookup (MorphemeList::lookup) returns the word ids of the entries of lookup(q, 0) ending at |q| *)
+Theorem C04_exact_lookup_spec : forall lexs q ids,
+  exact_lookup lexs q = Some ids ->
+  forall w, In w ids <-> exists l, lookup_set lexs q 0 = Some l /\ In (w, N.of_nat (length q)) l.
+Proof. exact exact_lookup_spec. Qed.
+Print Assumptions C04_exact_lookup_spec.
